@@ -143,6 +143,9 @@ func genOpts(rng *rand.Rand, tier string, mode string) sim.Opts {
 	o.DupPct = []int{0, 0, 5, 15}[rng.Intn(4)]
 	o.BigPayloads = rng.Intn(2) == 0
 	o.BaseIndex = []uint64{1, 2, 2, 5}[rng.Intn(4)]
+	if rng.Intn(8) == 0 {
+		o.BaseIndex += 1 << 63
+	}
 	if mode == "converge" || rng.Intn(3) == 0 {
 		o.Converge = 10
 	}
